@@ -21,7 +21,7 @@
      3 replacement, 10 departure, 11 arrival, 12 break, 13 reload, 14 recharge, 99 anything else;
      times: seconds relative to the base date; a place without `times` has the single window (-BASE, INF);
      absent shift start latest = INF; loads / capacities: first (only) dimension. *)
-From VRP Require Import Base.Tac Model.Core Spec.Feasible.
+From VRP Require Import Base.Tac Model.Core Spec.Feasible Spec.Intervals.
 
 (* ------------------------------------------------------------------ documents *)
 Record pplace := mkPPlace { pl_loc : Z; pl_dur : Z; pl_tws : list (Z * Z); pl_tag : option Z }.
@@ -32,8 +32,11 @@ Record ptask := mkPTask { tk_kind : Z; tk_places : list pplace; tk_demand : Z }.
    tk_demand keeps dimension 0 *)
 Record pjob := mkPJob { pj_id : Z; pj_tasks : list ptask; pj_static : bool; pj_skills : list Z;
                         pj_one : list Z; pj_none : list Z; pj_group : option Z; pj_compat : option Z;
-                        pj_xdem : list (list Z) }.
-Record pshift := mkPShift { sh_start : Z; sh_earliest : Z; sh_latest : Z; sh_end : option (Z * Z) (* location, latest *) }.
+                        pj_xdem : list (list Z);
+                        pj_orders : list Z   (* `order` of every task, task order; 0 = the task has no order *) }.
+(* sh_reloads: the reloads defined for this shift (location, duration, time windows, tag), in document order *)
+Record pshift := mkPShift { sh_start : Z; sh_earliest : Z; sh_latest : Z; sh_end : option (Z * Z) (* location, latest *);
+                            sh_reloads : list pplace }.
 Record pvtype := mkPVType {
   vt_id : Z; vt_vehicles : list Z; vt_shifts : list pshift; vt_cap : Z;
   vt_fixed : Z; vt_cd : Z; vt_ct : Z; vt_skills : list Z;
@@ -67,11 +70,14 @@ Inductive violation :=
 | ATourVehicle (tour : Z)         (* tour names an unknown type / vehicle / shift *)
 | ATourEmpty (tour : Z)           (* tour serves no job *)
 | AShiftTwice (tour : Z)          (* the vehicle shift of this tour already drives an earlier tour *)
-| AExtraActivity (tour : Z)       (* break / reload / recharge / unknown activity that no shift defines *)
+| AExtraActivity (tour : Z)       (* break / recharge / unknown activity that no shift of the fragment defines *)
+| AReload (tour : Z)              (* the reload activities of the tour are not DISTINCT reloads defined for its vehicle shift *)
 (* F: feasibility inputs (C01) *)
 | FNoTour (tour : Z)              (* the tour cannot be rebuilt: structure (departure first, arrival last iff the shift has an
                                      end), unknown job, or no place of the job's task matches location/duration/time *)
-| FInfeasible (tour : Z)          (* Spec.Feasible.feasible fails on the rebuilt tour: time windows, shift end, capacity *)
+| FInfeasible (tour : Z)          (* the rebuilt tour fails Spec.Feasible.time_feasible: a time window or the shift end *)
+| FCapacity (tour : Z)            (* the rebuilt tour fails the capacity per reload interval, Spec.Intervals.ivl_load_feasible
+                                     (= Spec.Feasible.load_feasible for a tour without reloads); dimension 0 *)
 | FSkills (tour : Z) (job : Z)
 | FMaxDistance (tour : Z)
 | FMaxDuration (tour : Z)
@@ -82,6 +88,8 @@ Inductive violation :=
 | FGroup (group : Z)              (* jobs of one group are served by two different tours *)
 | FUnreachable (tour : Z) (act : Z)   (* the leg arriving at flattened activity `act` is marked unreachable by errorCodes *)
 | FCapacityDim (tour : Z) (dim : Z)   (* the load exceeds the capacity in dimension dim >= 1 somewhere in the tour *)
+| FOrder (tour : Z)               (* task `order` (a hard rule unless a tour-order objective is given): a task is served after
+                                     one with a higher order value, or a task without order before one with an order *)
 (* R: reproducibility (C03) *)
 | RNoReplay (tour : Z)            (* as FNoTour: nothing to replay *)
 | RArrival (tour : Z) (act : Z)   (* reported arrival at an activity (stop arrival / end of the previous activity) <> replay *)
@@ -137,6 +145,10 @@ Definition flat_tour (t : stour) : list fact := concat (mapi flat_stop (to_stops
 Definition job_acts (t : stour) : list fact := filter (fun a => is_job_kind (fa_kind a)) (flat_tour t).
 Definition acts_of (j : Z) (t : stour) : list fact := filter (fun a => fa_job a =? j) (job_acts t).
 
+(* the place was used at this activity: location, duration and a window that explains the reported service start *)
+Definition place_fits (a : fact) (p : pplace) : bool := (pl_loc p =? fa_loc a) && (pl_dur p =? fa_end a - fa_start a).
+Definition win_fits (a : fact) (w : Z * Z) : bool := fa_start a =? Z.max (fa_arr a) (fst w).
+
 (* ================================================================== A: accounting (C02) *)
 (* an activity can be attributed to a task: same kind, performed at the location of one of the task's places *)
 Definition task_matches (tk : ptask) (a : fact) : bool :=
@@ -184,7 +196,28 @@ Definition shift_of (P : pproblem) (t : stour) : option (pvtype * pshift) :=
 
 Definition same_shift (a b : stour) : bool := (to_vehicle a =? to_vehicle b) && (to_shift a =? to_shift b)%nat.
 Definition shift_key (t : stour) : Z * nat := (to_vehicle t, to_shift t).   (* the vehicle shift a tour is driven by *)
-Definition extra_kind (k : Z) : bool := negb (is_job_kind k || (k =? 10) || (k =? 11)).
+Definition extra_kind (k : Z) : bool := negb (is_job_kind k || (k =? 10) || (k =? 11) || (k =? 13)).
+
+(* reloads: every reload activity of a tour is one of the reloads defined for the tour's vehicle shift (same location,
+   duration = reported service time, a window that explains the reported start), and no defined reload is used twice *)
+Definition reload_acts (t : stour) : list fact := filter (fun a => fa_kind a =? 13) (flat_tour t).
+Definition reload_fits (a : fact) (p : pplace) : bool := place_fits a p && existsb (win_fits a) (pl_tws p).
+(* all ways to take one element out of a list *)
+Fixpoint picks {A} (l : list A) : list (A * list A) :=
+  match l with [] => [] | x :: r => (x, r) :: map (fun yr => (fst yr, x :: snd yr)) (picks r) end.
+Fixpoint assign_b (acts : list fact) (avail : list pplace) : bool :=
+  match acts with
+  | [] => true
+  | a :: r => existsb (fun pr => reload_fits a (fst pr) && assign_b r (snd pr)) (picks avail)
+  end.
+Inductive Assign : list fact -> list pplace -> Prop :=
+| AsNil avail : Assign [] avail
+| AsCons a r pre p post : reload_fits a p = true -> Assign r (pre ++ post) -> Assign (a :: r) (pre ++ p :: post).
+
+Definition reloads_ok (P : pproblem) (t : stour) : bool :=
+  match shift_of P t with Some (_, sh) => assign_b (reload_acts t) (sh_reloads sh) | None => true end.
+Definition ReloadsDefined (P : pproblem) (t : stour) : Prop :=
+  forall vt sh, shift_of P t = Some (vt, sh) -> Assign (reload_acts t) (sh_reloads sh).
 
 (* tours with the list of the tours before them *)
 Fixpoint tour_viols (P : pproblem) (k : Z) (before : list stour) (l : list stour) : list violation :=
@@ -195,6 +228,7 @@ Fixpoint tour_viols (P : pproblem) (k : Z) (before : list stour) (l : list stour
     ++ (match job_acts t with [] => [ATourEmpty k] | _ => [] end)
     ++ (if existsb (same_shift t) before then [AShiftTwice k] else [])
     ++ (if existsb (fun a => extra_kind (fa_kind a)) (flat_tour t) then [AExtraActivity k] else [])
+    ++ (if reloads_ok P t then [] else [AReload k])
     ++ tour_viols P (k + 1) (before ++ [t]) r
   end.
 
@@ -226,8 +260,10 @@ Record Accounted (P : pproblem) (S : ssolution) : Prop := mkAccounted {
   acc_tour_shift : forall t, In t (sl_tours S) -> TourNamesShift P t;
   acc_tour_serves : forall t, In t (sl_tours S) -> job_acts t <> [];
   acc_shift_once : NoDup (map shift_key (sl_tours S));      (* no vehicle shift drives two tours *)
-  (* no shift of the supported fragment defines a break / reload / recharge, so none may appear *)
-  acc_no_extra : forall t a, In t (sl_tours S) -> In a (flat_tour t) -> extra_kind (fa_kind a) = false
+  (* no shift of the supported fragment defines a break / recharge, so none may appear *)
+  acc_no_extra : forall t a, In t (sl_tours S) -> In a (flat_tour t) -> extra_kind (fa_kind a) = false;
+  (* every reload stop corresponds to a distinct reload defined for that very vehicle shift *)
+  acc_reloads : forall t, In t (sl_tours S) -> ReloadsDefined P t
 }.
 
 (* ================================================================== P: preconditions *)
@@ -256,9 +292,6 @@ Definition demand_of (job : pjob) (tk : ptask) : demand :=
   else if tk_kind tk =? 3 then mkDemand q 0 q 0
   else dzero.
 
-(* the place was used at this activity: location, duration and a window that explains the reported service start *)
-Definition place_fits (a : fact) (p : pplace) : bool := (pl_loc p =? fa_loc a) && (pl_dur p =? fa_end a - fa_start a).
-Definition win_fits (a : fact) (w : Z * Z) : bool := fa_start a =? Z.max (fa_arr a) (fst w).
 Definition win_open (a : fact) (w : Z * Z) : bool := win_fits a w && (fa_arr a <=? snd w).
 
 (* candidates (task, place, window) of the job for activity a, in document order *)
@@ -269,8 +302,13 @@ Definition candidates (job : pjob) (a : fact) : list (ptask * pplace * (Z * Z)) 
             else []) (pj_tasks job).
 (* prefer a window that was still open at the reported arrival; otherwise the first one that explains the times
    (the tour is then infeasible, which is for `feasible` to say) *)
-Definition match_act (P : pproblem) (a : fact) : option (pjob * ptask * pplace * (Z * Z)) :=
-  match find_job P (fa_job a) with
+(* a reload activity (kind 13, rendered with job id RELOAD_JOB) is attributed to the pseudo job whose single task offers the
+   reloads of the shift as its places *)
+Definition reload_job (sh : pshift) : pjob := mkPJob RELOAD_JOB [mkPTask 13 (sh_reloads sh) 0] true [] [] [] None None [] [].
+Definition job_for (P : pproblem) (sh : pshift) (a : fact) : option pjob :=
+  if fa_kind a =? 13 then (if fa_job a =? RELOAD_JOB then Some (reload_job sh) else None) else find_job P (fa_job a).
+Definition match_act (P : pproblem) (sh : pshift) (a : fact) : option (pjob * ptask * pplace * (Z * Z)) :=
+  match job_for P sh a with
   | None => None
   | Some job =>
     let cs := candidates job a in
@@ -284,16 +322,17 @@ Definition act_of_match (a : fact) (m : pjob * ptask * pplace * (Z * Z)) : act :
   let '(job, tk, p, w) := m in
   mkAct (fa_job a) (fa_loc a) (pl_dur p) (fst w) (snd w) (demand_of job tk) (fa_arr a) (fa_end a).
 
-Fixpoint match_all (P : pproblem) (l : list fact) : option (list (fact * (pjob * ptask * pplace * (Z * Z)))) :=
+Fixpoint match_all (P : pproblem) (sh : pshift) (l : list fact) : option (list (fact * (pjob * ptask * pplace * (Z * Z)))) :=
   match l with
   | [] => Some []
-  | a :: r => match match_act P a, match_all P r with
+  | a :: r => match match_act P sh a, match_all P sh r with
               | Some m, Some ms => Some ((a, m) :: ms)
               | _, _ => None
               end
   end.
 
-(* split the flattened tour into departure, job activities, optional arrival *)
+Definition is_mid_kind (k : Z) : bool := is_job_kind k || (k =? 13).
+(* split the flattened tour into departure, job / reload activities, optional arrival *)
 Definition split_tour (has_end : bool) (l : list fact) : option (fact * list fact * option fact) :=
   match l with
   | [] => None
@@ -301,10 +340,10 @@ Definition split_tour (has_end : bool) (l : list fact) : option (fact * list fac
     if negb (fa_kind d =? 10) then None else
     if has_end then
       match rev r with
-      | e :: jr => if (fa_kind e =? 11) && forallb (fun a => is_job_kind (fa_kind a)) jr then Some (d, rev jr, Some e) else None
+      | e :: jr => if (fa_kind e =? 11) && forallb (fun a => is_mid_kind (fa_kind a)) jr then Some (d, rev jr, Some e) else None
       | [] => None
       end
-    else if forallb (fun a => is_job_kind (fa_kind a)) r then Some (d, r, None) else None
+    else if forallb (fun a => is_mid_kind (fa_kind a)) r then Some (d, r, None) else None
   end.
 
 Definition vehicle_of (vt : pvtype) (sh : pshift) : vehicle :=
@@ -325,7 +364,7 @@ Definition rebuild (P : pproblem) (t : stour) : option rebuilt :=
     match split_tour has_end (flat_tour t) with
     | None => None
     | Some (d, js, e) =>
-      match match_all P js with
+      match match_all P sh js with
       | None => None
       | Some ms =>
         let start := mkAct (-1) (fa_loc d) 0 (sh_earliest sh) (sh_latest sh) dzero (fa_start d) (fa_end d) in
@@ -372,13 +411,19 @@ Definition skills_ok (vt : pvtype) (job : pjob) : bool :=
   && forallb (fun s => negb (zmem s (vt_skills vt))) (pj_none job).
 Definition le_opt (x : Z) (lim : option Z) : bool := match lim with Some l => x <=? l | None => true end.
 
+(* Spec.Feasible.feasible with the capacity checked per reload interval; equal to it for a tour without reload activities
+   (Proofs/ValidP.v feasible_x_single) *)
+Definition feasible_x (dur : Z -> Z -> Z) (v : vehicle) (t : list act) : bool :=
+  time_feasible dur t && ivl_load_feasible (v_cap v) t.
+
 Definition feasible_viol (P : pproblem) (k : Z) (t : stour) : list violation :=
   match rebuild P t with
   | None => [FNoTour k]
   | Some r =>
     let acts := rb_acts r in
     let vt := rb_vt r in let sh := rb_shift r in
-    (if feasible (pdur P) (rb_veh r) acts then [] else [FInfeasible k])
+    (if time_feasible (pdur P) acts then [] else [FInfeasible k])
+    ++ (if ivl_load_feasible (v_cap (rb_veh r)) acts then [] else [FCapacity k])
     ++ flat_map (fun am => let '(job, _, _, _) := snd am in if skills_ok vt job then [] else [FSkills k (pj_id job)]) (rb_jobs r)
     ++ (if le_opt (tour_legs (pdist P) acts) (vt_maxdist vt) then [] else [FMaxDistance k])
     ++ (if le_opt (replay_duration (pdur P) acts) (vt_maxdur vt) then [] else [FMaxDuration k])
@@ -401,6 +446,11 @@ Fixpoint loads_from (l : Z) (acts : list act) : list Z :=
   end.
 Definition replay_loads (has_end : bool) (t : list act) : list Z :=
   let ls := loads_from (total_static_delivery t) t in
+  if has_end then removelast ls ++ [0] else ls.
+(* the same per reload interval: at a reload the static pickups are unloaded and the static deliveries of the next interval
+   are loaded (the load reported at the reload activity is the load the vehicle leaves the reload place with) *)
+Definition replay_loads_x (has_end : bool) (t : list act) : list Z :=
+  let ls := ivl_loads_of t in
   if has_end then removelast ls ++ [0] else ls.
 
 Fixpoint cum_from (m : Z -> Z -> Z) (loc acc : Z) (acts : list act) : list Z :=
@@ -468,7 +518,7 @@ Definition replay_tour (P : pproblem) (k : Z) (t : stour) : list violation :=
     let facts := rb_dep r :: map fst (rb_jobs r) ++ (match rb_arr r with Some e => [e] | None => [] end) in
     let rep := replay (pdur P) acts in
     act_checks k facts rep
-    ++ stop_checks k t facts rep (replay_loads has_end acts) (replay_cumdist (pdist P) acts)
+    ++ stop_checks k t facts rep (replay_loads_x has_end acts) (replay_cumdist (pdist P) acts)
     ++ tag_checks k (rb_jobs r)
     ++ stat_checks k (replay_stat P (rb_vt r) acts) (to_stat t)
   end.
@@ -533,7 +583,7 @@ Fixpoint mapn_from {A B} (i : nat) (f : nat -> A -> B) (l : list A) : list B :=
 Definition dim_task (xs : list Z) (i : nat) (tk : ptask) : ptask := mkPTask (tk_kind tk) (tk_places tk) (nth i xs 0).
 Definition dim_job (d : nat) (job : pjob) : pjob :=
   mkPJob (pj_id job) (mapn_from 0 (dim_task (nth d (pj_xdem job) [])) (pj_tasks job)) (pj_static job) (pj_skills job)
-         (pj_one job) (pj_none job) (pj_group job) (pj_compat job) [].
+         (pj_one job) (pj_none job) (pj_group job) (pj_compat job) [] (pj_orders job).
 Definition dim_vtype (d : nat) (vt : pvtype) : pvtype :=
   mkPVType (vt_id vt) (vt_vehicles vt) (vt_shifts vt) (nth d (vt_xcap vt) 0) (vt_fixed vt) (vt_cd vt) (vt_ct vt) (vt_skills vt)
            (vt_maxdist vt) (vt_maxdur vt) (vt_toursize vt) [].
@@ -559,17 +609,40 @@ Definition dim_tour_viol (P : pproblem) (k : Z) (t : stour) (d : nat) : list vio
   | Some r =>
     let has_end := match rb_arr r with Some _ => true | None => false end in
     let facts := rb_dep r :: map fst (rb_jobs r) ++ (match rb_arr r with Some e => [e] | None => [] end) in
-    ((if load_feasible (v_cap (rb_veh r)) (rb_acts r) then [] else [FCapacityDim k dz]),
-     load_checks k dz (dim_tour d t) facts (replay_loads has_end (rb_acts r)))
+    ((if ivl_load_feasible (v_cap (rb_veh r)) (rb_acts r) then [] else [FCapacityDim k dz]),
+     load_checks k dz (dim_tour d t) facts (replay_loads_x has_end (rb_acts r)))
   end.
 Definition dims_feasible_viols (P : pproblem) (S : ssolution) : list violation :=
   concat (mapi (fun k t => flat_map (fun d => fst (dim_tour_viol P k t d)) (seq 0 (xdims P))) (sl_tours S)).
 Definition dims_replay_viols (P : pproblem) (S : ssolution) : list violation :=
   concat (mapi (fun k t => flat_map (fun d => snd (dim_tour_viol P k t d)) (seq 0 (xdims P))) (sl_tours S)).
 
+(* ---- task order: goal_reader.rs adds the HARD tour-order constraint whenever some task has an `order` and the objectives
+        (default here) contain no tour-order objective: along a tour the order values never decrease, tasks without order come
+        last; reload / break activities are ignored.  The orders reach the rebuilt activities by the projection trick: the
+        problem whose task "demand" is the task's order. *)
+Definition order_job (job : pjob) : pjob :=
+  mkPJob (pj_id job) (mapn_from 0 (dim_task (pj_orders job)) (pj_tasks job)) (pj_static job) (pj_skills job)
+         (pj_one job) (pj_none job) (pj_group job) (pj_compat job) [] (pj_orders job).
+Definition order_problem (P : pproblem) : pproblem :=
+  mkPProblem (map order_job (pr_jobs P)) (pr_fleet P) (pr_n P) (pr_dur P) (pr_dist P) (pr_err P).
+Definition okey (o : Z) : Z := if o =? 0 then INF else o.
+Definition order_seq (r : rebuilt) : list Z :=
+  map (fun am => let '(_, tk, _, _) := snd am in okey (tk_demand tk))
+      (filter (fun am => is_job_kind (fa_kind (fst am))) (rb_jobs r)).
+Fixpoint sorted_b (l : list Z) : bool :=
+  match l with [] => true | a :: r => forallb (fun b => a <=? b) r && sorted_b r end.
+Definition order_viol (P : pproblem) (k : Z) (t : stour) : list violation :=
+  match rebuild (order_problem P) t with
+  | None => []                          (* FNoTour says so *)
+  | Some r => if sorted_b (order_seq r) then [] else [FOrder k]
+  end.
+Definition order_viols (P : pproblem) (S : ssolution) : list violation := concat (mapi (order_viol P) (sl_tours S)).
+Definition Sorted (l : list Z) : Prop := forall l1 a l2 b l3, l = l1 ++ a :: l2 ++ b :: l3 -> a <= b.
+
 (* group F, second part (C01) and group R, second part (C03) *)
 Definition xfeasible_viols (P : pproblem) (S : ssolution) : list violation :=
-  compat_viols P S ++ group_viols P S ++ reach_viols P S ++ dims_feasible_viols P S.
+  compat_viols P S ++ group_viols P S ++ reach_viols P S ++ dims_feasible_viols P S ++ order_viols P S.
 Definition xreplay_viols (P : pproblem) (S : ssolution) : list violation := dims_replay_viols P S.
 
 (* ================================================================== the checker *)
